@@ -602,6 +602,9 @@ func (e *Engine) execBlock(st *State, fr *Frame, idx int, q *pqueue, exits *[]ex
 				e.execBlock(s2, fr.clone(), i+1, q, exits)
 			}
 			return
+		case *ssa.Select:
+			e.schedSelect(st, fr, i, x, q, exits)
+			return
 		case *ssa.Send:
 			ch := e.get(fr, x.Chan).(ChanV)
 			for _, s2 := range e.schedSend(st, fr, i, ch, e.get(fr, x.X), x.Pos(), exits) {
